@@ -165,6 +165,45 @@ def rule_errors_as_values(ck, facts, cg):
     if len(ctors) != 1:
         return
     ctor = ctors[0]
+    # (c) a tree with parse errors never reaches MIR generation: in the functions that parse, every call that can
+    #     reach the MIR generator's constructor comes after the `parse errors are empty` edge on its path
+    reach_ctor = set(cg.reach_to([ctor.path])) if hasattr(cg, "reach_to") else None
+    if reach_ctor is None:
+        # reverse reachability by fixpoint over the call graph
+        reach_ctor = {ctor.path}
+        changed = True
+        while changed:
+            changed = False
+            for pth, callees in cg.edges.items():
+                if pth not in reach_ctor and any(c in reach_ctor for c in callees):
+                    reach_ctor.add(pth)
+                    changed = True
+    for f in parsers:
+        sx = SymEx(f, max_paths=64, facts=facts)
+        try:
+            paths = sx.run(0)
+        except PathLimit:
+            paths = sx.paths
+        bad = None
+        n_calls = 0
+        for p in paths:
+            empty_seen = False
+            for e in p.events:
+                if e[0] == "cond" and e[1][0] == "call" and e[1][1].endswith("::is_empty") and "parse_to_expr" in repr(e[1][2]):
+                    empty_seen = (e[3] and e[2] == 1) or ((not e[3]) and tuple(e[2]) == (0,))
+                    if not empty_seen:
+                        empty_seen = "nonempty"
+                if e[0] == "call" and e[1] in reach_ctor and e[1] != f.path:
+                    n_calls += 1
+                    if empty_seen is not True:
+                        bad = e[3]
+        key = "parse-errors-stop|%s" % f.short
+        if n_calls == 0:
+            continue
+        if bad is None:
+            ck.ok(R, key, {"fn": f.short, "mir_generation": "only after the parse-error list was found empty"})
+        else:
+            ck.bad(R, key, "%s hands the parsed tree to macro expansion / MIR generation before (or although) the parse-error list is non-empty: the later stages are written for well-formed trees and abort on the error nodes that recovery leaves behind (`f(else |> )` panics in the MIR generator instead of returning the two syntax diagnostics)" % f.short, f.where(bad))
     for f in lang.fns:
         sites = [(b, t) for b, t in f.calls() if callee(t) == ctor.path]
         if not sites or "::tests" in f.path:
